@@ -8,6 +8,7 @@ import shutil
 import sys
 
 res, root = sys.argv[1], sys.argv[2]
+PREFIX = sys.argv[3] if len(sys.argv) > 3 else ""          # e.g. "r2-" for the second round of sub-agents
 HERE = os.path.dirname(os.path.dirname(os.path.abspath(__file__)))
 rows = []
 for line in open(res):
@@ -15,7 +16,7 @@ for line in open(res):
     if not m:
         continue
     prop, x, applies, rest = m.groups()
-    sid = "%s-%s" % (prop, x)
+    sid = "%s%s-%s" % (PREFIX, prop, x)
     src = os.path.join(root, prop, x)
     d = {"id": sid, "property": prop, "applies": applies == "yes"}
     mm = re.search(r"demo_clean=(\d+) demo_patched=(\d+) suite=\[(.*?)\]", rest)
@@ -48,6 +49,6 @@ last = {}
 for d in rows:
     last[d["id"]] = d          # a seed that was re-run (e.g. after porting its patch) counts with its latest result
 rows = [last[k] for k in sorted(last)]
-json.dump(rows, open(os.path.join(HERE, "seeded", "SUMMARY.json"), "w"), indent=1)
+json.dump(rows, open(os.path.join(HERE, "seeded", "SUMMARY%s.json" % ("-" + PREFIX.strip("-") if PREFIX else "")), "w"), indent=1)
 for d in rows:
     print("%-6s confirmed=%-5s detected_by=%s" % (d["id"], d["confirmed"], d["detected_by"]))
